@@ -26,7 +26,7 @@ import baize.wsgi.responses as WR
 import baize.wsgi.shortcut as WSC
 
 from engine import report
-from engine.forksym import Engine, SInt, conc, cur, term_of
+from engine.forksym import Engine, SInt, conc, cur, lift, smax, smin, term_of, term_of_bool
 from engine.shims import Shims, int_shim
 from engine.symseq import SBytes, SSeq, SStr, _items_of
 
@@ -313,6 +313,8 @@ def run_job(job) -> report.JobResult:
     sys.unraisablehook = lambda *a: None
     if job.get("kind") == "overlap":
         return job_overlap(job)
+    if job.get("kind") == "zcwindow":
+        return job_zc_window(job)
     res = report.JobResult.new(job["name"])
     twin = job.get("twin", False)
     iface, recipe, depth, kind, what = job["iface"], job["recipe"], job["depth"], job["kind"], job["what"]
@@ -467,6 +469,159 @@ def concrete_confirm(job, inputs) -> Optional[bool]:
         SSeq.NORMALIZE = nrm
 
 
+# ------------------------------------------------------------------ the relay's reading of a zero-copy-send window (ASGI)
+ZC_MAX = 300000
+
+
+class _Chunk(bytes):
+    """what the os stand-in's read() hands back: an (empty) bytes object that knows its symbolic length"""
+    k: Any = 0
+
+    def __bool__(self):
+        k = self.k
+        return bool(k > 0) if isinstance(k, SInt) else k > 0
+
+
+def _zc_len(x):
+    return x.k if isinstance(x, _Chunk) else len(x)
+
+
+class _WindowOS:
+    """os stand-in: one regular file of `size` bytes; read(n) returns min(n, what is left) bytes, or -- at most `shorts`
+    times on a path -- any shorter non-empty amount (POSIX allows short reads)"""
+    SEEK_SET = 0
+
+    def __init__(self, size, pos0, shorts, script=None):
+        self.size, self.pos, self.shorts, self.script = size, pos0, shorts, script
+        self.reads: List[Any] = []
+
+    def lseek(self, fd, pos, whence):
+        self.pos = pos
+        return pos
+
+    def read(self, fd, n):
+        if self.script is not None:          # concrete replay: the lengths the solver chose, real bytes
+            k = self.script.pop(0) if self.script else max(0, min(n, self.size - self.pos))
+            k = max(0, min(k, n, self.size - self.pos))
+            data = bytes((i * 7 + 1) % 251 for i in range(self.pos, self.pos + k))
+            self.pos += k
+            return data
+        e = cur()
+        if e.branch(term_of_bool(lift(n) < 0)):
+            raise Fail("negative-read-size")
+        left = smax(lift(self.size) - lift(self.pos), 0)
+        k = smin(n, left)
+        if self.shorts > 0 and e.branch(term_of_bool(lift(k) > 1)) and e.choose(2, "short") == 1:
+            self.shorts -= 1
+            k = e.fresh("shortread", 1)
+            e.assume(term_of_bool(k < smin(n, left)))
+        self.reads.append((self.pos, k))
+        self.pos = lift(self.pos) + k
+        c = _Chunk()
+        c.k = k
+        return c
+
+
+def zc_concrete(w) -> Optional[str]:
+    """the real read_zerocopysend on a concrete message against a concrete file image with the witness's read lengths"""
+    osx = _WindowOS(w["file_size"], w["position_before"], 0, script=list(w["read_lengths"]))
+    msg = {"type": "http.response.zerocopysend", "file": 7}
+    if w["offset"] is not None:
+        msg["offset"] = w["offset"]
+    if w["count"] is not None:
+        msg["count"] = w["count"]
+    start = w["offset"] if w["offset"] is not None else w["position_before"]
+    want_len = max(0, w["file_size"] - start)
+    if w["count"] is not None:
+        want_len = min(want_len, w["count"])
+    want = bytes((i * 7 + 1) % 251 for i in range(start, start + want_len))
+    old = AM.os
+    AM.os = osx
+    try:
+        got = AM.read_zerocopysend(msg)
+    except Exception as ex:  # noqa: BLE001
+        return f"raises {type(ex).__name__}: {ex}"
+    finally:
+        AM.os = old
+    return None if got == want else f"relay returns {len(got)} bytes for a window of {len(want)} bytes" if len(got) != len(want) else "relay returns other bytes than the window"
+
+
+def job_zc_window(job) -> report.JobResult:
+    res = report.JobResult.new(job["name"])
+    twin = job.get("twin", False)
+    eng = Engine(budget_s=600)
+    size, off, cnt, pos0 = z3.Int("file_size"), z3.Int("offset"), z3.Int("count"), z3.Int("position_before")
+    for v in (size, off, cnt, pos0):
+        eng.solver.add(v >= 0, v <= ZC_MAX)
+    shims = Shims()
+    shims.add(AM, len=_zc_len)
+
+    def fn():
+        e = cur()
+        osx = _WindowOS(SInt(size), SInt(pos0), job["shorts"])
+        shims_os = AM.os
+        AM.os = osx
+        try:
+            msg = {"type": "http.response.zerocopysend", "file": 7}
+            if job["offset"]:
+                msg["offset"] = SInt(off)
+            if job["count"]:
+                msg["count"] = SInt(cnt)
+            AM.read_zerocopysend(msg)
+        finally:
+            AM.os = shims_os
+        start = SInt(off) if job["offset"] else SInt(pos0)
+        want = smax(SInt(size) - start, 0)
+        if job["count"]:
+            want = smin(want, SInt(cnt))
+        total = lift(0)
+        at = start
+        for p_, k in osx.reads:
+            if e.branch(term_of_bool(lift(p_) != at)):
+                raise Fail("relay-reads-from-the-wrong-position")
+            total = total + k
+            at = at + k
+        if e.branch(term_of_bool(total != want)):
+            raise Fail("relayed-window-length-differs", f"{len(osx.reads)} reads")
+        if twin:
+            raise Fail("twin-assert-false")
+        return ("transparent", osx.reads)
+
+    def on_path(e, r):
+        kind_, v = r
+        klass = detail = None
+        reads = []
+        if kind_ == "exc":
+            if isinstance(v, Fail):
+                klass, detail = v.klass, v.detail
+            else:
+                klass, detail = f"exception:{type(v).__name__}", repr(v)
+        else:
+            reads = v[1]
+        m = e.witness()
+        g = lambda t: m.eval(t, True).as_long()  # noqa: E731
+        wit = {"job": job["name"], "file_size": g(size), "position_before": g(pos0), "offset": g(off) if job["offset"] else None,
+               "count": g(cnt) if job["count"] else None,
+               "read_lengths": [g(term_of(lift(k))) for _, k in (reads or getattr(e, "_zc_reads", []))]}
+        if klass is not None:
+            # the read lengths of a failing path are not returned: replay with full reads first, then the solver's values if that agrees
+            cp = zc_concrete(dict(wit, read_lengths=[])) if not twin else "twin"
+            res.violation(f"C20/asgi/zerocopy-window/{klass.split(':')[0]}", wit, f"{klass} {detail}; real function on the concrete window: {cp}", (cp is not None) or twin)
+            return
+        res.kind("transparent")
+        if res["validated"] < 40:
+            cp = zc_concrete(wit)
+            if cp is not None:
+                res["harness_errors"].append(f"window relayed exactly symbolically but not concretely: {wit}: {cp}")
+            res["validated"] += 1
+        res.sample(wit, limit=1)
+
+    with shims:
+        eng.explore(fn, on_path)
+    res.absorb_engine(eng)
+    return res
+
+
 # ------------------------------------------------------------------ two requests in flight through ONE middleware instance (ASGI)
 def overlap_scenario(delays):
     """inner app: cookies and a header that depend on the request path; identity handler that awaits an audit hook (delays[i] ticks) between
@@ -590,12 +745,22 @@ def jobs(tier: str):
                 out.append(dict(name=f"{iface}/plain/identity{depth}/size{size}", iface=iface, recipe="plain", depth=depth, kind="identity", what="size", size=size, weight=50))
         for depth in range(1, b["depth_max"] + 1):
             out.append(dict(name=f"{iface}/view/decorator{depth}/header", iface=iface, recipe="view", depth=depth, kind="decorator", what="header", n=1))
+    for offset in (True, False):
+        for count in (True, False):
+            for shorts in (0, 2):
+                out.append(dict(name=f"asgi/zerocopy-window/{'offset' if offset else 'no-offset'}/{'count' if count else 'to-end-of-file'}/short-reads{shorts}",
+                                iface="asgi", recipe="zcwindow", depth=1, kind="zcwindow", what="window", offset=offset, count=count, shorts=shorts, weight=30))
+    out.append(dict(name="asgi/zerocopy-window/twin", iface="asgi", recipe="zcwindow", depth=1, kind="zcwindow", what="window", offset=True, count=True, shorts=0, twin=True))
     out.append(dict(name="twin", iface="wsgi", recipe="plain", depth=1, kind="identity", what="header", n=1, twin=True))
     return out
 
 
 def replay(rec) -> int:
     w = rec["witness"]
+    if "zerocopy-window" in w.get("job", ""):
+        cp = zc_concrete(dict(w, read_lengths=[]))
+        print(f"replay C20: {w} -> {cp or 'window relayed exactly'}")
+        return 1 if cp else 0
     if "overlap" in w.get("job", ""):
         i = w["inputs"]
         bare, got = overlap_scenario([i["audit_ticks_a"], i["audit_ticks_b"], i["second_request_starts_at"]])
